@@ -303,31 +303,7 @@ func structEdit(r *hx.Rand, h *helloJ) string {
 			return "ext-tail-sni-header-cut"
 		}
 	case k == 11: // server_name extension with a hand-made (mostly malformed) body, lengths of the outer layers consistent
-		var body []byte
-		nm := []byte(randName(r))
-		entry := append([]byte{0, byte(len(nm) >> 8), byte(len(nm))}, nm...)
-		unk := append([]byte{byte(r.Range(1, 255)), 0, 2}, r.Bytes(2)...)
-		note := ""
-		switch r.Intn(7) {
-		case 0: // a dangling 1-2 byte entry header behind an unknown-type entry
-			body, note = vec(2, append(append([]byte{}, unk...), r.Bytes(r.Range(1, 2))...)), "sni-raw-dangling-entry"
-		case 1: // name length runs past the list
-			e := append([]byte{}, entry...)
-			e[2] += byte(r.Range(1, 9))
-			body, note = vec(2, append(append([]byte{}, unk...), e...)), "sni-raw-name-overrun"
-		case 2: // body shorter than its list length field
-			body, note = r.Bytes(r.Intn(2)), "sni-raw-short-body"
-		case 3: // list length disagrees with the body
-			body = vec(2, entry)
-			body[1] += byte(r.Range(1, 3))
-			note = "sni-raw-list-length"
-		case 4: // garbage behind a valid host_name entry inside the list (fabio stops at the host name)
-			body, note = vec(2, append(append([]byte{}, entry...), r.Bytes(r.Range(1, 2))...)), "sni-raw-garbage-after-host"
-		case 5: // trailing bytes behind the list
-			body, note = append(vec(2, entry), r.Bytes(r.Range(1, 4))...), "sni-raw-trailing"
-		default: // valid, as an opaque body
-			body, note = vec(2, append(append([]byte{}, unk...), entry...)), "sni-raw-valid"
-		}
+		body, note := rawSNIBody(r)
 		var rest []extJ
 		for i, x := range h.Exts {
 			if i != sni {
@@ -347,6 +323,38 @@ func structEdit(r *hx.Rand, h *helloJ) string {
 		}
 		h.Exts = rest
 		return "sni-removed"
+	}
+}
+
+// rawSNIBody builds the body of a server_name extension by hand: mostly malformed inside, so that the outer layers
+// (extension length, block length, handshake and record length) stay consistent.
+func rawSNIBody(r *hx.Rand) (body []byte, note string) {
+	nm := []byte(randName(r))
+	entry := append([]byte{0, byte(len(nm) >> 8), byte(len(nm))}, nm...)
+	unk := append([]byte{byte(r.Range(1, 255)), 0, 2}, r.Bytes(2)...)
+	switch r.Intn(9) {
+	case 0: // a dangling 1-2 byte entry header behind an unknown-type entry
+		return vec(2, append(append([]byte{}, unk...), r.Bytes(r.Range(1, 2))...)), "sni-raw-dangling-entry"
+	case 1: // name length runs past the list
+		e := append([]byte{}, entry...)
+		e[2] += byte(r.Range(1, 9))
+		return vec(2, append(append([]byte{}, unk...), e...)), "sni-raw-name-overrun"
+	case 2: // body shorter than its list length field
+		return r.Bytes(r.Intn(2)), "sni-raw-short-body"
+	case 3: // list length disagrees with the body
+		body = vec(2, entry)
+		body[1] += byte(r.Range(1, 3))
+		return body, "sni-raw-list-length"
+	case 4: // garbage behind a valid host_name entry inside the list (fabio stops at the host name)
+		return vec(2, append(append([]byte{}, entry...), r.Bytes(r.Range(1, 2))...)), "sni-raw-garbage-after-host"
+	case 5: // trailing bytes behind the list
+		return append(vec(2, entry), r.Bytes(r.Range(1, 4))...), "sni-raw-trailing"
+	case 6: // an entry of unknown type with an empty name behind the host name (crypto/tls refuses empty names of any type)
+		return vec(2, append(append([]byte{}, entry...), byte(r.Range(1, 255)), 0, 0)), "sni-raw-empty-unknown-after-host"
+	case 7: // ... or in front of it (fabio refuses nothing here either: it skips it)
+		return vec(2, append([]byte{byte(r.Range(1, 255)), 0, 0}, entry...)), "sni-raw-empty-unknown-before-host"
+	default: // valid, as an opaque body
+		return vec(2, append(append([]byte{}, unk...), entry...)), "sni-raw-valid"
 	}
 }
 
@@ -402,7 +410,13 @@ func knownBody(r *hx.Rand, t int) []byte {
 	return r.Bytes([]int{0, 1, 2, 7, 64, 255, 256, 300, 1300, 5000}[r.Intn(10)])
 }
 
-var extTypes = []int{5, 10, 11, 13, 16, 18, 23, 35, 43, 45, 44, 50, 51, 0xff01, 21, 27, 28, 34, 49, 57, 17513, 65000, 0xfe0d, 65535, 1, 2, 255, 256}
+var extTypes = []int{5, 10, 11, 13, 16, 18, 23, 35, 43, 45, 44, 50, 51, 0xff01, 21, 27, 28, 34, 49, 57, 17513, 65000, 0xfe0d, 65535, 1, 2, 255, 256,
+	0x0a0a, 0x1a1a, 0xfafa, 22, 15, 20, 47}
+
+// extension types crypto/tls (go1.24) does not look into: on a hello whose other extensions are all of these, the TLS
+// stack accepts exactly when the framing and the server_name extension are in order (driver: two-way comparison of
+// crypto/tls with the Lean reading of a standard server).
+var opaqueToTLS = []int{21, 27, 28, 34, 49, 17513, 65000, 65535, 1, 2, 255, 256, 0x0a0a, 0x1a1a, 0xfafa, 22, 15, 20, 47}
 
 func genSNI(r *hx.Rand, wf bool) extJ {
 	name := []byte(r.Pick([]string{"example.com", "a", "xn--mnchen-3ya.de", label(63, 'a') + ".example", label(253, 'z'), "EXAMPLE.com"}))
@@ -476,8 +490,19 @@ func genHello(r *hx.Rand) helloJ {
 			perm[i], perm[j] = perm[j], perm[i]
 		}
 		budget := 15000
+		opaqueOnly := r.Chance(1, 4) // only extensions crypto/tls ignores next to server_name
 		for i := 0; i < n && i < len(perm); i++ {
 			t := extTypes[perm[i]]
+			if opaqueOnly {
+				t = opaqueToTLS[perm[i]%len(opaqueToTLS)]
+				dup := false
+				for _, e := range h.Exts {
+					dup = dup || e.Typ == t
+				}
+				if dup {
+					continue
+				}
+			}
 			body := knownBody(r, t)
 			if len(body) > budget {
 				body = body[:0]
@@ -508,8 +533,19 @@ func genHello(r *hx.Rand) helloJ {
 			if len(h.Exts) > 0 {
 				h.Exts = append(h.Exts, h.Exts[r.Intn(len(h.Exts))])
 			}
-		case 3: // an opaque extension of type 0 (server_name) with an arbitrary body
-			h.Exts = append(h.Exts, extJ{Typ: 0, Body: hex.EncodeToString(r.Bytes(r.Intn(12)))})
+		case 3: // an opaque extension of type 0 (server_name) with an arbitrary or hand-made body
+			body := r.Bytes(r.Intn(12))
+			if r.Chance(2, 3) {
+				body, _ = rawSNIBody(r)
+			}
+			var rest []extJ // replace the server_name extension, if any, half of the time
+			for _, e := range h.Exts {
+				if !e.IsSNI || r.Chance(1, 2) {
+					rest = append(rest, e)
+				}
+			}
+			at := r.Intn(len(rest) + 1)
+			h.Exts = append(append(append([]extJ{}, rest[:at]...), extJ{Typ: 0, Body: hex.EncodeToString(body)}), rest[at:]...)
 			h.HasExts = true
 		case 4: // two server_name extensions
 			h.Exts = append(h.Exts, genSNI(r, true))
